@@ -112,13 +112,72 @@ def first_match_loop(ex, n, st, itv):
     return outs
 
 
+def _trivial(x):
+    """evaluating x cannot raise, has no effect and does not depend on when it happens: a name, a constant, an attribute chain of a name"""
+    while isinstance(x, ast.Attribute):
+        x = x.value
+    return isinstance(x, (ast.Name, ast.Constant))
+
+
+def _inline_single_use_locals(n, st):
+    """loop body `L1 = E1; ...; Lk = Ek; ACC.append(f(..., Li, ...))`: each local Li that is assigned once, used exactly once - as a whole
+    positional or keyword argument of the final call, with only trivial expressions (names, constants, attribute chains) evaluated before it -
+    and not read outside the loop is replaced by its expression (same evaluations in the same order).  Returns the one-statement body or None."""
+    import copy as _copy
+    *assigns, last = n.body
+    if not (isinstance(last, ast.Expr) and isinstance(last.value, ast.Call) and len(last.value.args) == 1 and isinstance(last.value.args[0], ast.Call)):
+        return None
+    inner = last.value.args[0]
+    if not _trivial(inner.func) or any(isinstance(a, ast.Starred) for a in inner.args) or any(k.arg is None for k in inner.keywords):
+        return None
+    slots = [('a', i, a) for i, a in enumerate(inner.args)] + [('k', i, k.value) for i, k in enumerate(inner.keywords)]
+    fn = st.ctx[2] if getattr(st, 'ctx', None) else None
+    subst = {}
+    for a in assigns:
+        if not (isinstance(a, ast.Assign) and len(a.targets) == 1 and isinstance(a.targets[0], ast.Name)):
+            return None
+        nm = a.targets[0].id
+        if nm in subst or any(isinstance(x, (ast.Yield, ast.YieldFrom, ast.Await, ast.NamedExpr)) for x in ast.walk(a.value)):
+            return None
+        if any(isinstance(x, ast.Name) and x.id in subst for x in ast.walk(a.value)):
+            return None          # one local defined from another: not handled
+        uses = [x for x in ast.walk(inner) if isinstance(x, ast.Name) and x.id == nm]
+        pos = [i for i, (_k, _i, v) in enumerate(slots) if isinstance(v, ast.Name) and v.id == nm]
+        if len(uses) != 1 or len(pos) != 1:
+            return None
+        if fn is not None and any(isinstance(x, ast.Name) and x.id == nm and not (n.lineno <= x.lineno <= getattr(n, 'end_lineno', n.lineno)) for x in ast.walk(fn)):
+            return None
+        subst[nm] = (pos[0], a.value)
+    # evaluation order: the assignments run in source order before the call; after inlining they run at their argument positions - require the
+    # same relative order and nothing but trivial expressions (or other inlined locals) in front of them
+    order = sorted(subst.values(), key=lambda t: t[0])
+    if [id(v) for _p, v in order] != [id(a.value) for a in assigns]:
+        return None
+    last_pos = order[-1][0] if order else -1
+    inl = {p_ for p_, _v in order}
+    if any(not _trivial(v) for i, (_k, _i, v) in enumerate(slots) if i < last_pos and i not in inl):
+        return None
+    new_inner = _copy.deepcopy(inner)
+    nslots = [('a', i) for i in range(len(new_inner.args))] + [('k', i) for i in range(len(new_inner.keywords))]
+    for p_, v in order:
+        kind, i = nslots[p_]
+        if kind == 'a':
+            new_inner.args[i] = v
+        else:
+            new_inner.keywords[i].value = v
+    new_last = ast.Expr(value=ast.Call(func=last.value.func, args=[new_inner], keywords=list(last.value.keywords)))
+    ast.copy_location(new_last, last); ast.fix_missing_locations(new_last)
+    return [new_last]
+
+
 def map_loop_as_extend(ex, n, st):
     """`for T in XS: ACC.append(E)` is `ACC.extend([E for T in XS])` (same element evaluations in the same order), provided E does not mention
     ACC and T is not read after the loop; on an exception the accumulator holds an unknown prefix (handled by the caller).  Returns
     (statement, accumulator name) or None."""
-    if len(n.body) != 1 or not isinstance(n.body[0], ast.Expr) or not isinstance(n.body[0].value, ast.Call):
+    body = _inline_single_use_locals(n, st) if len(n.body) > 1 else n.body
+    if body is None or len(body) != 1 or not isinstance(body[0], ast.Expr) or not isinstance(body[0].value, ast.Call):
         return None
-    c = n.body[0].value
+    c = body[0].value
     if not (isinstance(c.func, ast.Attribute) and c.func.attr == 'append' and isinstance(c.func.value, ast.Name) and len(c.args) == 1 and not c.keywords):
         return None
     acc = c.func.value.id; elt = c.args[0]
